@@ -34,7 +34,7 @@ Record feat := mkFeat {
 (* candidate fixes shipped under fixes/: the model covers the repaired and the unrepaired code *)
 Record variant := mkVariant {
   v_ctl_participant : bool;   (* control layer passes participant= to its encrypt-notification acks *)
-  v_account_return : bool;    (* AccountIbProtocolEntity.fromProtocolTreeNode returns the entity *)
+  v_account_return : bool;    (* AccountIbProtocolEntity.fromProtocolTreeNode returns the entity (repaired upstream) *)
   v_unregister : bool         (* the profiles layer forwards UnregisterIqProtocolEntity *)
 }.
 Definition repaired : variant := mkVariant true true true.
@@ -204,10 +204,11 @@ Definition sent_registered (l : lid) (f : feat) (ok err : option string) : list 
   [Register l (f_id f) ok err; Down (SEntity f)].
 
 Definition ERR := Some "ErrorIqProtocolEntity".
-Definition RES := Some "ResultIqProtocolEntity".
+(* ResultIqProtocolEntity.fromProtocolTreeNode is the inherited IqProtocolEntity one: the object built is an IqProtocolEntity *)
+Definition RES := Some "IqProtocolEntity".
 
 Definition send_iq (f : feat) : list action :=
-  if oeq (f_xmlns f) "w:p" then sent_registered LIq f RES None
+  if oeq (f_xmlns f) "w:p" then sent_registered LIq f RES ERR
   else if oeq (f_xmlns f) "urn:xmpp:whatsapp:push" || oeq (f_xmlns f) "w"
           || oeq (f_xmlns f) "urn:xmpp:whatsapp:account" || oeq (f_xmlns f) "encrypt" then sent f
   else [].
@@ -228,13 +229,13 @@ Definition send_presence (f : feat) : list action :=
 Definition groups_callbacks (c : string) : option (option string * option string) :=
   if String.eqb c "SubjectGroupsIqProtocolEntity" then Some (RES, ERR)
   else if String.eqb c "CreateGroupsIqProtocolEntity" then Some (Some "SuccessCreateGroupsIqProtocolEntity", ERR)
-  else if String.eqb c "ParticipantsGroupsIqProtocolEntity" then Some (Some "ListParticipantsResultIqProtocolEntity", None)
+  else if String.eqb c "ParticipantsGroupsIqProtocolEntity" then Some (Some "ListParticipantsResultIqProtocolEntity", ERR)
   else if String.eqb c "AddParticipantsIqProtocolEntity"
        then Some (Some "SuccessAddParticipantsIqProtocolEntity", Some "FailureAddParticipantsIqProtocolEntity")
   else if String.eqb c "PromoteParticipantsIqProtocolEntity" then Some (RES, ERR)
   else if String.eqb c "DemoteParticipantsIqProtocolEntity" then Some (RES, ERR)
   else if String.eqb c "RemoveParticipantsIqProtocolEntity" then Some (Some "SuccessRemoveParticipantsIqProtocolEntity", ERR)
-  else if String.eqb c "ListGroupsIqProtocolEntity" then Some (Some "ListGroupsResultIqProtocolEntity", None)
+  else if String.eqb c "ListGroupsIqProtocolEntity" then Some (Some "ListGroupsResultIqProtocolEntity", ERR)
   else if String.eqb c "LeaveGroupsIqProtocolEntity" then Some (Some "SuccessLeaveGroupsIqProtocolEntity", ERR)
   else if String.eqb c "InfoGroupsIqProtocolEntity" then Some (Some "InfoGroupsResultIqProtocolEntity", ERR)
   else None.
@@ -269,7 +270,8 @@ Definition handler_send (v : variant) (l : lid) (f : feat) : list action :=
   | LIq => send_iq f
   | LNotifications => if String.eqb (f_tag f) "notification" then sent f else []
   | LCalls => if String.eqb (f_tag f) "call" then sent f else []
-  | LContacts => if oeq (f_xmlns f) "urn:xmpp:whatsapp:sync" then sent f else []
+  | LContacts => if oeq (f_xmlns f) "urn:xmpp:whatsapp:sync"
+                 then sent_registered LContacts f (Some "ResultSyncIqProtocolEntity") ERR else []
   | LGroups => send_groups f
   | LPrivacy => if oeq (f_xmlns f) "jabber:iq:privacy" then sent f else []
   | LProfiles => send_profiles v f
@@ -292,14 +294,14 @@ Definition reg_find (st : registry) (l : lid) (id : ostr) : option reg_entry :=
 Definition reg_remove (st : registry) (l : lid) (i : string) : registry :=
   filter (fun e => match e with (l', i', _, _) => negb (lid_eqb l l' && String.eqb i i') end) st.
 
-(* processIqRegistry: Some acts = consumed *)
+(* processIqRegistry: Some acts = consumed (only result / error replies consume a pending request) *)
 Definition registry_recv (st : registry) (l : lid) (f : feat) : option (list action) :=
   if String.eqb (f_tag f) "iq" then
     match reg_find st l (f_id f) with
     | Some (_, _, ok, err) =>
-      Some (if oeq (f_type f) "result" then match ok with Some c => [Up c] | None => [] end
-            else if oeq (f_type f) "error" then match err with Some c => [Up c] | None => [] end
-            else [])
+      if oeq (f_type f) "result" then Some (match ok with Some c => [Up c] | None => [] end)
+      else if oeq (f_type f) "error" then Some (match err with Some c => [Up c] | None => [] end)
+      else None
     | None => None
     end
   else None.
@@ -315,7 +317,7 @@ Definition layer_send (v : variant) (l : lid) (f : feat) : list action :=
 
 (* registry after the actions of one stanza/entity *)
 Definition consume (st : registry) (ls : list lid) (f : feat) : registry :=
-  if String.eqb (f_tag f) "iq" then
+  if String.eqb (f_tag f) "iq" && (oeq (f_type f) "result" || oeq (f_type f) "error") then
     match f_id f with
     | Some i => fold_left (fun s l => reg_remove s l i) ls st
     | None => st
